@@ -227,15 +227,19 @@ def operations(ws):
     mods = sorted({n for n, _ in RW.modifiers_of(ws)})
     types = sorted({t for _, t in RW.modifiers_of(ws)})
     meas = RW.names(ws["measurements"])
+    # a renaming whose target name already exists merges two items: not a relabelling, outside the property (inverse cannot exist)
     for c in chans:
         ops.append(("prune", "channels", c))
-        ops.append(("rename", "channels", c, c + "_r"))
+        if c + "_r" not in chans:
+            ops.append(("rename", "channels", c, c + "_r"))
     for s in samp:
         ops.append(("prune", "samples", s))
-        ops.append(("rename", "samples", s, s + "_r"))
+        if s + "_r" not in samp:
+            ops.append(("rename", "samples", s, s + "_r"))
     for m in mods:
         ops.append(("prune", "modifiers", m))
-        ops.append(("rename", "modifiers", m, m + "_r"))
+        if m + "_r" not in mods:
+            ops.append(("rename", "modifiers", m, m + "_r"))
     for t in types:
         ops.append(("prune", "modifier_types", t))
     for m in meas:
@@ -397,8 +401,8 @@ def bfs(case):
                             ncmp += 1
                             if l0 != l1:
                                 issues.append(C.issue("C16:sorted:likelihood", f"sorting changes the logpdf {l0!r} -> {l1!r}", **ctx))
-                        except pyhf.exceptions.InvalidModel:
-                            pass
+                        except (pyhf.exceptions.InvalidModel, AssertionError, KeyError):
+                            pass  # model not buildable for this measurement, or a state outside the reference interpreter's domain (one staterror name in two channels)
                 except Exception as e:
                     issues.append(C.issue(f"C16:{op[0]}:{type(e).__name__}", f"{op} raised {type(e).__name__}: {e}"[:200], **ctx))
                     continue
